@@ -49,6 +49,8 @@ pub enum Snip {
     UnsetArray { assoc: bool },
     FuncDef { name: u8, body: u8 },
     FuncUnset { name: u8 },
+    /// `shopt -s extglob` and, on the next line, a function whose body uses an extended pattern
+    ExtglobFunc { name: u8, body: u8 },
     AliasDef { name: u8, body: u8 },
     Unalias { name: u8 },
     SetOpt { opt: u8, on: bool },
@@ -100,6 +102,18 @@ impl Snip {
                 pick(&["echo one", "echo two \"$@\"", "local code=5; return $code", "a1 || true", "printf '%s\\n' \"a  b\" 'c\\d'"], *body)
             ),
             Snip::FuncUnset { name } => format!("unset -f {}", pick(FUNCS, *name)),
+            Snip::ExtglobFunc { name, body } => format!(
+                "shopt -s extglob\nfunction {} {{ {}; }}",
+                pick(FUNCS, *name),
+                pick(
+                    &[
+                        "case \"$1\" in @(a|b)) echo ab;; *) echo other;; esac",
+                        "echo \"${1##+(0)}\"",
+                        "[[ $1 == !(x|y) ]] && echo not-xy"
+                    ],
+                    *body
+                )
+            ),
             Snip::AliasDef { name, body } => format!(
                 "alias {}={}",
                 pick(ALIASES, *name),
@@ -122,7 +136,7 @@ impl Snip {
             Snip::ArraySet { .. } | Snip::ArrayAppend { .. } | Snip::ArrayUnsetElem { .. } => "indexed_array",
             Snip::AssocSet { .. } | Snip::AssocPut { .. } => "associative_array",
             Snip::UnsetArray { .. } => "indexed_array",
-            Snip::FuncDef { .. } | Snip::FuncUnset { .. } => "function",
+            Snip::FuncDef { .. } | Snip::FuncUnset { .. } | Snip::ExtglobFunc { .. } => "function",
             Snip::AliasDef { .. } | Snip::Unalias { .. } => "alias",
             Snip::SetOpt { .. } => "set_option",
             Snip::Shopt { .. } => "shopt_option",
@@ -174,6 +188,7 @@ fn snip_strategy() -> BoxedStrategy<Snip> {
         1 => any::<bool>().prop_map(|assoc| Snip::UnsetArray { assoc }),
         3 => (any::<u8>(), any::<u8>()).prop_map(|(name, body)| Snip::FuncDef { name, body }),
         1 => any::<u8>().prop_map(|name| Snip::FuncUnset { name }),
+        1 => (any::<u8>(), any::<u8>()).prop_map(|(name, body)| Snip::ExtglobFunc { name, body }),
         3 => (any::<u8>(), any::<u8>()).prop_map(|(name, body)| Snip::AliasDef { name, body }),
         1 => any::<u8>().prop_map(|name| Snip::Unalias { name }),
         3 => (any::<u8>(), any::<bool>()).prop_map(|(opt, on)| Snip::SetOpt { opt, on }),
